@@ -1,2 +1,107 @@
-(* C15 — series names have one canonical form; derived storage keys are unambiguous.  Headline theorems only. *)
-From Pyro Require Import Model.Base Model.Key.
+(* C15 — series names have one canonical form; derived storage keys are unambiguous.  Headline theorems only.
+
+   Vocabulary (Proofs/KeyProofs.v):  name_ok n  := n has no '{';   tag_ok (k,v) := k has no '=' '}' and v has no ',' '}'
+   (exactly the texts in which the parts are what the author wrote: a delimiter inside a part would end it);
+   render n [(k1,v1);..] is the text n{k1=v1,..};  trim_tags trims every key and value (strings.TrimSpace, Unicode White_Space);
+   padded s s' := s' is s with white space added on both sides. *)
+From Pyro Require Import Model.Base Model.Key Proofs.BcmpProofs Proofs.KeyProofs.
+From Coq Require Import Permutation.
+
+(* --- order of distinct tags and white space around name, keys, values do not matter --- *)
+Theorem C15_order_ws : forall n n' l l',
+  name_ok n -> name_ok n' -> Forall tag_ok l -> Forall tag_ok l' ->
+  trim n = trim n' ->
+  NoDup (map fst (trim_tags l)) ->
+  Permutation (trim_tags l) (trim_tags l') ->
+  parse (render n l) = parse (render n' l') /\
+  normalized (parse (render n l)) = normalized (parse (render n' l')).
+Proof. exact order_ws_both. Qed.
+Print Assumptions C15_order_ws.
+
+Theorem C15_ws_padding : forall n n' l l',
+  name_ok n -> Forall tag_ok l -> padded n n' -> Forall2 padded_tag l l' ->
+  parse (render n' l') = parse (render n l).
+Proof. exact ws_parse. Qed.
+Print Assumptions C15_ws_padding.
+
+Theorem C15_bare_name : forall n, name_ok n -> parse n = parse (render n []).
+Proof. exact parse_bare. Qed.
+Print Assumptions C15_bare_name.
+
+(* app { b = 1 ,a=2} and app{a=2,b=1} *)
+Example C15_order_ws_nonvacuous :
+  let n := [32; 97; 112; 112; 32] in let l := [([32; 98; 32], [32; 49; 32]); ([97], [50])] in
+  let n' := [97; 112; 112] in let l' := [([97], [50]); ([98], [49])] in
+  name_ok n /\ name_ok n' /\ Forall tag_ok l /\ Forall tag_ok l' /\ trim n = trim n' /\
+  NoDup (map fst (trim_tags l)) /\ Permutation (trim_tags l) (trim_tags l') /\
+  normalized (parse (render n l)) = [97; 112; 112; 123; 97; 61; 50; 44; 98; 61; 49; 125].
+Proof.
+  cbv zeta. repeat split; try reflexivity.
+  - repeat constructor; reflexivity.
+  - repeat constructor; reflexivity.
+  - repeat constructor; cbn; intuition discriminate.
+  - vm_compute. apply perm_swap.
+Qed.
+
+(* --- the canonical text parses back to the same name ---
+   Full statement (FALSE of the code, finding D15 / reserved-name-brace):
+       forall s, parse (normalized (parse s)) = parse s
+   Proved with the hypothesis that the __name__ value has no '{' (true of every name that does not set the
+   reserved tag to such a value); refuted without it. *)
+Theorem C15_fixpoint_partial : forall s,
+  has c_lbrace (app_name (parse s)) = false ->
+  parse (normalized (parse s)) = parse s.
+Proof. exact fixpoint_partial. Qed.
+Print Assumptions C15_fixpoint_partial.
+
+Theorem C15_canonical_idempotent_partial : forall s,
+  has c_lbrace (app_name (parse s)) = false ->
+  normalized (parse (normalized (parse s))) = normalized (parse s).
+Proof. exact normalized_idem_partial. Qed.
+Print Assumptions C15_canonical_idempotent_partial.
+
+Theorem C15_fixpoint_refuted : exists s, parse (normalized (parse s)) <> parse s.
+Proof. exact fixpoint_refuted. Qed.
+Print Assumptions C15_fixpoint_refuted.
+
+(* the general form: any label map of the shape ParseKey produces *)
+Theorem C15_fixpoint_labels : forall m,
+  labels_ok m -> lget name_key m <> None -> name_ok (app_name m) -> parse (normalized m) = m.
+Proof. exact fixpoint_labels. Qed.
+Print Assumptions C15_fixpoint_labels.
+
+Theorem C15_parse_shape : forall s, labels_ok (parse s) /\ lget name_key (parse s) <> None.
+Proof. exact parse_ok. Qed.
+Print Assumptions C15_parse_shape.
+
+(* " app { b = x=y , a,c = {z }" : duplicate-free, value with '=' and '{', key with ',' *)
+Example C15_fixpoint_nonvacuous :
+  let s := [32; 97; 112; 112; 32; 123; 32; 98; 32; 61; 32; 120; 61; 121; 32; 44; 32; 97; 44; 99; 32; 61; 32; 123; 122; 32; 125] in
+  has c_lbrace (app_name (parse s)) = false /\ List.length (parse s) = 3%nat.
+Proof. vm_compute. auto. Qed.
+
+(* --- the tree key of a bucket splits back into series key and application name --- *)
+Theorem C15_split_main : forall m (depth : nat) (unix : Z),
+  from_tree_to_main_key (tree_key m depth unix) = Some (normalized m).
+Proof. exact split_main. Qed.
+Print Assumptions C15_split_main.
+
+(* Full statement for the application name is FALSE with '{' in the __name__ value (same finding D15). *)
+Theorem C15_split_dict_partial : forall m (depth : nat) (unix : Z),
+  has c_lbrace (app_name m) = false ->
+  from_tree_to_dict_key (tree_key m depth unix) = Some (app_name m).
+Proof. exact split_dict. Qed.
+Print Assumptions C15_split_dict_partial.
+
+Theorem C15_split_dict_refuted : exists s depth unix,
+  from_tree_to_dict_key (tree_key (parse s) depth unix) <> Some (app_name (parse s)).
+Proof. exact split_dict_refuted. Qed.
+Print Assumptions C15_split_dict_refuted.
+
+(* level 10, one second before year 1 *)
+Example C15_split_nonvacuous :
+  let m := parse [97; 58; 98; 123; 107; 61; 58; 58; 125] in    (* a:b{k=::} *)
+  has c_lbrace (app_name m) = false /\
+  from_tree_to_main_key (tree_key m 10 (-62135596801)%Z) = Some (normalized m) /\
+  from_tree_to_dict_key (tree_key m 10 (-62135596801)%Z) = Some [97; 58; 98].
+Proof. vm_compute. auto. Qed.
